@@ -2,6 +2,7 @@ package corpus
 
 import (
 	"fmt"
+	"strings"
 
 	"verif/internal/spec"
 )
@@ -79,4 +80,75 @@ func ManyTypesFile(pkg, goName string) *spec.File {
 	f.Messages = append(f.Messages, &spec.Message{Name: "AllReq", Fields: refs}, &spec.Message{Name: "AllResp", Fields: refs})
 	f.Services = []*spec.Service{{Name: "ManyTypesService", Methods: []*spec.Method{{Name: "All", In: "." + pkg + ".AllReq", Out: "." + pkg + ".AllResp", HTTP: &spec.HTTP{Path: "/all", Verb: 2}}}}}
 	return f
+}
+
+// EnumShape is a package layout around enums with enum_value custom JSON strings.
+type EnumShape struct {
+	Label string
+	Files []*spec.File // all of one proto/Go package
+}
+
+func customEnum(name, prefix string) *spec.EnumDef {
+	return &spec.EnumDef{Name: name, Values: []spec.EnumValue{
+		{Name: prefix + "_UNSPECIFIED", Num: 0, JSON: spec.S("unknown")}, {Name: prefix + "_PENDING", Num: 1, JSON: spec.S("pending")},
+		{Name: prefix + "_ON_HOLD", Num: 2, JSON: spec.S("on-hold")}, {Name: prefix + "_PLAIN", Num: 5}}}
+}
+
+// EnumShapes: where annotated enums may live (top level, nested, the same short name in several
+// scopes, a file of their own) — every annotated enum must get its JSON methods in each of them.
+func EnumShapes(pkgPrefix, goPrefix string) []EnumShape {
+	var out []EnumShape
+	mk := func(label string, fill func(pkg string, f *spec.File) []*spec.File) {
+		n := len(out)
+		pkg := fmt.Sprintf("%s.e%d", pkgPrefix, n)
+		goName := fmt.Sprintf("%se%d", goPrefix, n)
+		f := &spec.File{Path: fmt.Sprintf("%s/e%d/defs.proto", goPrefix, n), Package: pkg, GoImport: "lab/gen/" + goName, GoName: goName}
+		extra := fill(pkg, f)
+		out = append(out, EnumShape{Label: label, Files: append(extra, f)})
+	}
+	mk("top-level", func(pkg string, f *spec.File) []*spec.File {
+		f.Enums = []*spec.EnumDef{customEnum("Status", "STATUS")}
+		f.Messages = []*spec.Message{{Name: "Order", Fields: []*spec.Field{spec.FE("status", 1, "."+pkg+".Status")}}}
+		return nil
+	})
+	mk("two-top-level-and-plain", func(pkg string, f *spec.File) []*spec.File {
+		f.Enums = []*spec.EnumDef{customEnum("Status", "STATUS"), customEnum("Phase", "PHASE"), {Name: "Plain", Values: []spec.EnumValue{{Name: "PLAIN_UNSPECIFIED", Num: 0}, {Name: "PLAIN_ONE", Num: 1}}}}
+		f.Messages = []*spec.Message{{Name: "Order", Fields: []*spec.Field{spec.FE("status", 1, "."+pkg+".Status"), spec.FE("phase", 2, "."+pkg+".Phase"), spec.FE("plain", 3, "."+pkg+".Plain")}}}
+		return nil
+	})
+	mk("nested", func(pkg string, f *spec.File) []*spec.File {
+		f.Messages = []*spec.Message{{Name: "Order", Enums: []*spec.EnumDef{customEnum("Status", "STATUS")}, Fields: []*spec.Field{spec.FE("status", 1, "."+pkg+".Order.Status")}}}
+		return nil
+	})
+	mk("deep-nested", func(pkg string, f *spec.File) []*spec.File {
+		f.Messages = []*spec.Message{{Name: "Outer", Nested: []*spec.Message{{Name: "Inner", Enums: []*spec.EnumDef{customEnum("Level", "LEVEL")}, Fields: []*spec.Field{spec.FE("level", 1, "."+pkg+".Outer.Inner.Level")}}},
+			Fields: []*spec.Field{spec.FM("inner", 1, "."+pkg+".Outer.Inner")}}}
+		return nil
+	})
+	mk("nested-same-short-name", func(pkg string, f *spec.File) []*spec.File {
+		f.Messages = []*spec.Message{
+			{Name: "Order", Enums: []*spec.EnumDef{customEnum("Status", "STATUS")}, Fields: []*spec.Field{spec.FE("status", 1, "."+pkg+".Order.Status")}},
+			{Name: "Shipment", Enums: []*spec.EnumDef{customEnum("Status", "STATUS")}, Fields: []*spec.Field{spec.FE("status", 1, "."+pkg+".Shipment.Status"), spec.FM("order", 2, "."+pkg+".Order")}}}
+		return nil
+	})
+	mk("top-and-nested-same-short-name", func(pkg string, f *spec.File) []*spec.File {
+		f.Enums = []*spec.EnumDef{customEnum("Status", "TOP_STATUS")}
+		f.Messages = []*spec.Message{
+			{Name: "Shipment", Enums: []*spec.EnumDef{customEnum("Status", "STATUS")}, Fields: []*spec.Field{spec.FE("status", 1, "."+pkg+".Shipment.Status"), spec.FE("top", 2, "."+pkg+".Status")}}}
+		return nil
+	})
+	mk("enums-only-file", func(pkg string, f *spec.File) []*spec.File {
+		ef := &spec.File{Path: strings.TrimSuffix(f.Path, "defs.proto") + "status.proto", Package: pkg, GoImport: f.GoImport, GoName: f.GoName}
+		ef.Enums = []*spec.EnumDef{customEnum("Status", "STATUS"), customEnum("Phase", "PHASE")}
+		f.Imports = []string{ef.Path}
+		f.Messages = []*spec.Message{{Name: "Order", Fields: []*spec.Field{spec.FE("status", 1, "."+pkg+".Status"), spec.FE("phase", 2, "."+pkg+".Phase")}}}
+		return []*spec.File{ef}
+	})
+	mk("with-service", func(pkg string, f *spec.File) []*spec.File {
+		f.Enums = []*spec.EnumDef{customEnum("Status", "STATUS")}
+		f.Messages = []*spec.Message{{Name: "Order", Enums: []*spec.EnumDef{customEnum("Kind", "KIND")}, Fields: []*spec.Field{spec.FE("status", 1, "."+pkg+".Status"), spec.FE("kind", 2, "."+pkg+".Order.Kind")}}}
+		f.Services = []*spec.Service{{Name: "EnumService", Methods: []*spec.Method{{Name: "Call", In: "." + pkg + ".Order", Out: "." + pkg + ".Order", HTTP: &spec.HTTP{Path: "/e", Verb: 2}}}}}
+		return nil
+	})
+	return out
 }
